@@ -28,7 +28,7 @@ def run(ck, an, tier):
     s3(ck, an)
     s4(ck, an)
     verified(ck, an)
-    s5(ck, an)
+    xy_init(ck, an)
     s6(ck, an)
 
 
@@ -95,38 +95,109 @@ def s1(ck, an):
     ck.check(y_ok, "ARGFLOW", "S1.prices-with-configured-spread", fm.f.short, fm.f.loc, "each price column is added with the configured spread", "price columns are not added as add_prices(Y[[name]], spread) for every column",
              construct="transmitter.add_prices(Y[[name]], spread)")
     ck.check(r_ok, "ARGFLOW", "S1.rate-without-spread", fm.f.short, fm.f.loc, "the reference rate is added as given, with no spread", "the rate frame is not added as add_prices(rate.to_frame())", construct="transmitter.add_prices(rate.to_frame())")
+
+
+
+# Reference implementation of the data path of TradingEnvXY.__init__ (what is transformed, filled, clipped, trimmed and
+# handed to the parent constructor). Compared with the code through value ids: both texts go through the same normaliser, so
+# local names, temporaries, `if/else` vs conditional expressions, `x op= e` vs `x = x op e`, mirrored comparisons and inverted
+# branches do not matter; pandas in-place calls (`X.ffill(inplace=True)`) count as a redefinition of the table.
+REF_XY_INIT = """
+def __init__({sig}):
+    if isinstance(start, str):
+        start = pd.to_datetime(start)
+    start = start or Y.first_valid_index()
+    start = max(start, Y.first_valid_index())
+    if isinstance(end, str):
+        end = pd.to_datetime(end)
+    end = end or Y.last_valid_index()
+    end = min(end, Y.last_valid_index())
+    transformer_end = transformer_end or end
+    if reward == 'logret':
+        scale = np.log(pd.DataFrame(Y).loc[:transformer_end]).diff().std().mean().item()
+        reward = LogReturn(scale=float(scale), clip=reward_clipping, risk_aversion=risk_aversion)
+    else:
+        raise NotImplementedError()
+    X = X.reindex(X.index.union(Y.index), fill_value=np.nan)
+    X = self.transformer.transform(X.loc[:end])
+    X.ffill(inplace=True)
+    X.fillna(0., inplace=True)
+    X.clip(-clip, clip, inplace=True)
+    t0 = X.loc[start:end].first_valid_index()
+    t0_idx = X.index.get_loc(t0)
+    t0_warmup_idx = t0_idx - window + 1
+    if t0_warmup_idx >= 0:
+        pass
+    else:
+        start = Y.loc[start:end].iloc[abs(t0_warmup_idx):].first_valid_index()
+        t0 = X.loc[start:end].first_valid_index()
+        t0_idx = X.index.get_loc(t0)
+        t0_warmup_idx = t0_idx - window + 1
+    X = X.iloc[t0_warmup_idx:]
+    Y = pd.DataFrame(Y).loc[start:end]
+    if rate is None:
+        rate = pd.Series(name='Zero Rate', dtype=float)
+    rate = rate.squeeze().loc[start:end]
+    super().__init__(
+        action_space=BoxPortfolio(Y.columns, max_short, max_long, margin=margin),
+        state=State(X.columns.size, window, stride, max_=5),
+        reward=reward,
+        transmitter=self._make_transmitter(X, Y, calendar, spread, rate, folds, window),
+        broker_fees=BrokerFees(markup, rate.name, fee, fixed),
+        initial_cash=cash, latency=latency, steps_delay=steps_delay, episode_length=episode_length, sampling_span=sampling_span)
+    self.X = X
+    self.Y = Y
+"""
+
+
+def _super_init_call(fa):
+    cs = [c for c in walk_function(fa.f.node) if isinstance(c, ast.Call) and ast.unparse(c.func) == "super().__init__"]
+    return cs[0] if len(cs) == 1 else None
+
+
+def xy_init(ck, an):
     fi = an.fa("TradingEnvXY.__init__")
+    subj = fi.f.short
+    ref = reference(fi, REF_XY_INIT.format(sig=ast.unparse(fi.f.node.args)))
+    ca, cb = _super_init_call(fi), _super_init_call(ref)
+    if ca is None:
+        ck.fail("ARGFLOW", "S6.env-config", subj, fi.f.loc, "TradingEnvXY does not call super().__init__ once", construct="super().__init__(...)")
+        return
+    ka = {k.arg: fi.sym.canon(k.value, fi.node_of(ca).id) for k in ca.keywords}
+    kb = {k.arg: ref.sym.canon(k.value, ref.node_of(cb).id) for k in cb.keywords}
+    ck.check(not ca.args and set(ka) == set(kb), "ARGFLOW", "S6.env-config", subj, fi.loc(ca), "the parent environment is configured through the same keyword arguments", f"super().__init__ receives {sorted(ka)}; specified {sorted(kb)}",
+             construct="super().__init__(...)")
+    names = {"transmitter": ("S1.transmitter-arguments", "the transmitter is built from the served X, the given Y restricted to [start, end], the calendar, the configured spread, the given rate, folds and window"),
+             "state": ("S5.state-arguments", "State(n features, window, stride, max_=5)")}
+    for k, w in kb.items():
+        name, what = names.get(k, (f"S6.env-config-{k}", f"{k} is built from the given arguments"))
+        g = ka.get(k)
+        ck.check(g == w, "ARGFLOW", name, subj, fi.loc(ca), what, f"{k} = {str(g)[:300]}; specified {w[:300]}", construct=f"{k}=...", witness=[f"got       {g}", f"specified {w}"])
+    # the tables published are the ones specified, and the very ones served
     mt = [c for c in fi.calls_named("_make_transmitter")]
-    for c in mt:
-        args = [ast.unparse(a) for a in c.args]
-        ck.check(args == ["X", "Y", "calendar", "spread", "rate", "folds", "window"], "ARGFLOW", "S1.transmitter-arguments", fi.f.short, fi.loc(c), "the transmitter is built from X, Y, calendar, spread, rate, folds, window",
-                 f"_make_transmitter({', '.join(args)})", construct=stmt_text(c))
+    for i_, tbl in enumerate(("X", "Y")):
+        pub, want = stored_attr_under(fi, tbl), stored_attr_under(ref, tbl)
+        clause = "S5.feature-pipeline" if tbl == "X" else "S6.price-range"
+        what = ("features: re-indexed on the union of both date indices, transformed up to `end`, forward filled, zero filled, clipped to [-clip, +clip], trimmed to window - 1 rows before the first served date"
+                if tbl == "X" else "prices are the given prices restricted to [start, end] (start postponed until a full window of features exists)")
+        ck.check(pub is not None and pub == want, "LIN", clause, subj, fi.f.loc, what, f"self.{tbl} = {str(pub)[:300]}; specified {str(want)[:300]}", construct=f"self.{tbl} = {tbl}",
+                 witness=[f"got       {pub}", f"specified {want}"])
+        served = fi.sym.canon(mt[0].args[i_], fi.node_of(mt[0]).id) if len(mt) == 1 and len(mt[0].args) > i_ else None
+        ck.check(pub is not None and pub == served, "ARGFLOW", f"S2.published-{tbl}-is-served-{tbl}", subj, fi.f.loc, f"self.{tbl} is the very table the transmitter was built from (same value, nothing applied in between)",
+                 f"self.{tbl} differs from the table served", construct=f"self.{tbl} = {tbl}", witness=[f"published {pub}", f"served    {served}"])
+    # attribute stores on the local tables (not part of a value id): the contracts
+    for tgt, text, name, what in (("Y.columns", "[Asset(c) for c in Y.columns]", "S6.one-asset-per-column", "each price column becomes an Asset contract"),
+                                  ("rate.name", "Rate(rate.name)", "S6.rate-contract", "the rate series is keyed by a Rate contract (the one the fee schedule reads)")):
+        st_ = [x for x in all_stmts(fi) if isinstance(x, ast.Assign) and len(x.targets) == 1 and ast.unparse(x.targets[0]) == tgt]
+        ok = len(st_) == 1 and fi.sym.canon(st_[0].value, fi.node_of(st_[0]).id) == specv(fi, text, fi.node_of(st_[0]).id).key() and not fi.syntactic_guards(st_[0])
+        ck.check(ok, "ARGFLOW", name, subj, fi.f.loc, what, f"{tgt} is not {text}", construct=f"{tgt} = {text}")
+        if ok and ca is not None:
+            ord_before(ck, fi, name + "-before-use", st_, [ca], f"the store of {tgt}", "building the environment")
+    d = fi.f.param_default("clip")
+    ck.check(const_value(d) == 5.0, "CONST", "S5.clip-default-within-bound", subj, fi.f.loc, "default clip (5) equals the declared observation bound", f"default clip is {ast.unparse(d) if d else None}", construct="clip=5.")
 
 
 def s2(ck, an):
-    fi = an.fa("TradingEnvXY.__init__")
-    subj = fi.f.short
-    mt = [c for c in fi.calls_named("_make_transmitter")]
-    for tbl in ("X", "Y"):
-        pub = [s for s in assigns_to_attr(fi, tbl)]
-        ok = False
-        detail = "not published"
-        if len(pub) == 1 and isinstance(pub[0], ast.Assign) and isinstance(pub[0].value, ast.Name) and pub[0].value.id == tbl and mt:
-            used = next((a for a in mt[0].args if isinstance(a, ast.Name) and a.id == tbl), None)
-            if used is not None:
-                d1 = {d.node for d in fi.rd.reaching(tbl, fi.node_of(used).id)}
-                d2 = {d.node for d in fi.rd.reaching(tbl, fi.node_of(pub[0]).id)}
-                ok = d1 == d2 and len(d1) == 1
-                detail = f"definitions reaching the transmitter: {sorted(d1)}, reaching self.{tbl}: {sorted(d2)}"
-                # no in-place mutation of the table between the two uses
-                for n in walk_function(fi.f.node):
-                    if isinstance(n, ast.Call) and isinstance(n.func, ast.Attribute) and isinstance(n.func.value, ast.Name) and n.func.value.id == tbl:
-                        inplace = any(k.arg == "inplace" and const_value(k.value) is True for k in n.keywords)
-                        if inplace and fi.reachable_from(mt[0], n):
-                            ok = False
-                            detail = f"{tbl} is mutated in place after the transmitter was built"
-        ck.check(ok, "ARGFLOW", f"S2.published-{tbl}-is-served-{tbl}", subj, fi.f.loc, f"self.{tbl} is the very table the transmitter was built from", f"self.{tbl} differs from the table served: {detail}",
-                 construct=f"self.{tbl} = {tbl}")
     fm = an.fa("TradingEnvXY._make_transmitter")
     evs = [d for d in fm.rd.defs if d.kind == "assign" and isinstance(d.value, ast.ListComp) and "EventNewObservation" in ast.unparse(d.value)]
     ok = False
@@ -159,25 +230,29 @@ def s3(ck, an):
     ck.check(ok, "ARGFLOW", "S3.transmitter-on-those-steps", fm.f.short, fm.f.loc, "the transmitter's grid is exactly those timesteps", "the transmitter is not built on the computed timesteps", construct="Transmitter(timesteps, ...)")
 
 
+REF_STATE_INIT = """
+def __init__({sig}):
+    try:
+        list(features)
+    except TypeError:
+        n = features
+    else:
+        n = len(features)
+    m = window if stride is None else math.ceil(window / stride)
+    self.space = gymnasium.spaces.Box(-max_, max_, (m, n), float)
+    self.queue = deque(maxlen=window)
+    self.stride = stride
+"""
+
+
 def s4(ck, an):
     fi = an.fa("State.__init__")
     subj = fi.f.short
-    sp = [s for s in assigns_to_attr(fi, "space")]
-    ok = False
-    detail = "space not assigned"
-    if len(sp) == 1 and isinstance(sp[0], ast.Assign) and isinstance(sp[0].value, ast.Call):
-        c = sp[0].value
-        at = fi.node_of(sp[0]).id
-        args = [fi.sym.canon(a, at) for a in c.args]
-        detail = f"Box({', '.join(args)})"
-        want_shape = fi.sym.canon(ast.parse("(window if stride is None else math.ceil(window / stride), n)", mode="eval").body, at)
-        ok = len(args) >= 3 and args[0] == "-max_" and args[1] == "max_" and args[2] == want_shape
-    ck.check(ok, "LIN", "S4.declared-shape", subj, fi.f.loc, "declared space is Box(-max_, max_, (window or ceil(window / stride), n))", f"declared space is {detail[:160]}", construct="self.space = gymnasium.spaces.Box(...)")
-    q = [s for s in assigns_to_attr(fi, "queue")]
-    ck.check(len(q) == 1 and isinstance(q[0], ast.Assign) and ast.unparse(q[0].value) in ("deque(maxlen=window)", "collections.deque(maxlen=window)"), "IDIOM", "S4.queue-capacity-window", subj, fi.f.loc, "the window queue is deque(maxlen=window)",
-             f"queue = {[ast.unparse(s.value) for s in q if isinstance(s, ast.Assign)]}", construct="self.queue = deque(maxlen=window)")
-    st = [s for s in assigns_to_attr(fi, "stride")]
-    ck.check(len(st) == 1 and isinstance(st[0], ast.Assign) and ast.unparse(st[0].value) == "stride", "ARGFLOW", "S4.stride-config", subj, fi.f.loc, "stride is the configured stride", "stride is not stored as given", construct="self.stride = stride")
+    ref = reference(fi, REF_STATE_INIT.format(sig=ast.unparse(fi.f.node.args)))
+    for attr, name, what in (("space", "S4.declared-shape", "declared space is Box(-max_, max_, (window or ceil(window / stride), number of features))"),
+                             ("queue", "S4.queue-capacity-window", "the window queue is deque(maxlen=window)"), ("stride", "S4.stride-config", "stride is the configured stride")):
+        got, want = stored_attr_under(fi, attr), stored_attr_under(ref, attr)
+        ck.check(got is not None and got == want, "LIN", name, subj, fi.f.loc, what, f"self.{attr} = {str(got)[:200]}; specified {str(want)[:200]}", construct=f"self.{attr} = ...")
     fp = an.fa("State.process_EventNewObservation")
     ev = fp.f.params[1]
     pre = [n for n in walk_function(fp.f.node) if isinstance(n, ast.For)]
@@ -231,73 +306,23 @@ def verified(ck, an):
                  "state() is not called with self._verify_state", construct="self.state(self._verify_state)")
 
 
-def s5(ck, an):
-    fi = an.fa("TradingEnvXY.__init__")
-    subj = fi.f.short
-    tr = [c for c in fi.calls_named("transform")]
-    ff = [c for c in fi.calls_named("ffill")]
-    fz = [c for c in fi.calls_named("fillna")]
-    cl = [c for c in fi.calls_named("clip") if isinstance(c.func.value, ast.Name) and c.func.value.id == "X"]
-    if tr and ff:
-        ord_before(ck, fi, "S5.transform-before-fill", tr, ff, "transform", "ffill")
-    if ff and fz:
-        ord_before(ck, fi, "S5.ffill-before-zero-fill", ff, fz, "ffill", "fillna(0)")
-    if fz and cl:
-        ord_before(ck, fi, "S5.fill-before-clip", fz, cl, "fillna(0)", "clip")
-    ck.check(len(cl) == 1 and [ast.unparse(a) for a in cl[0].args] == ["-clip", "clip"], "LIN", "S5.symmetric-clip", subj, fi.f.loc, "features are clipped to [-clip, +clip]", f"clip arguments: {[ast.unparse(a) for c in cl for a in c.args]}",
-             construct="X.clip(-clip, clip, inplace=True)")
-    for c in fz:
-        ck.check(c.args and const_value(c.args[0]) in (0, 0.0) and not any(k.arg == "method" for k in c.keywords), "CONST", "S5.zero-fill", subj, fi.loc(c), "values missing before the first observation are filled with 0", f"fillna({ast.unparse(c)[:40]})",
-                 construct=stmt_text(c))
-    st = [c for c in walk_function(fi.f.node) if isinstance(c, ast.Call) and fi.sym.canon(c.func) == "State"]
-    ok = len(st) == 1 and [ast.unparse(a) for a in st[0].args] == ["X.columns.size", "window", "stride"] and {k.arg: ast.unparse(k.value) for k in st[0].keywords} == {"max_": "5"}
-    ck.check(ok, "ARGFLOW", "S5.state-arguments", subj, fi.f.loc, "State(n features, window, stride, max_=5)", f"State({ast.unparse(st[0])[:80] if st else ''})", construct="State(X.columns.size, window, stride, max_=5)")
-    d = fi.f.param_default("clip")
-    ck.check(const_value(d) == 5.0, "CONST", "S5.clip-default-within-bound", subj, fi.f.loc, "default clip (5) equals the declared observation bound", f"default clip is {ast.unparse(d) if d else None}", construct="clip=5.")
-    # reindex on the union of both indices so that every price date has a (filled) feature row
-    rx = [c for c in fi.calls_named("reindex")]
-    ok = any(ast.unparse(c.args[0]) == "X.index.union(Y.index)" for c in rx if c.args)
-    ck.check(ok, "ARGFLOW", "S5.reindex-union", subj, fi.f.loc, "X is re-indexed on the union of the X and Y dates before filling", "X is not re-indexed on X.index.union(Y.index)", construct="X = X.reindex(X.index.union(Y.index), ...)")
-    # warm-up trimming keeps window - 1 rows before the first step
-    defs = [d for d in fi.rd.defs if d.var == "t0_warmup_idx" and d.kind == "assign"]
-    ok = bool(defs) and all(fi.sym.ev(d.value, d.node) == fi.sym.ev(ast.parse("t0_idx - window + 1", mode="eval").body, d.node) for d in defs)
-    ck.check(ok, "LIN", "S5.warmup-rows", subj, fi.f.loc, "the table keeps window - 1 rows before the first served date", "t0_warmup_idx is not t0_idx - window + 1", construct="t0_warmup_idx = t0_idx - window + 1")
-    tx = [s for s in all_stmts(fi) if isinstance(s, ast.Assign) and ast.unparse(s.targets[0]) == "X" and "iloc[t0_warmup_idx:]" in ast.unparse(s.value)]
-    ck.check(len(tx) == 1 and ast.unparse(tx[0].value) == "X.iloc[t0_warmup_idx:]", "LIN", "S5.trim-from-warmup-row", subj, fi.f.loc, "X is trimmed from the warm-up row onwards", "X is not trimmed as X.iloc[t0_warmup_idx:]", construct="X = X.iloc[t0_warmup_idx:]")
+REF_MAKE_TRANSMITTER = """
+def _make_transmitter({sig}):
+    markov_reset = window == 1
+    warmup = None if markov_reset else timedelta(days=3 + window * 2)
+    timesteps = self._make_timesteps(X, Y, calendar, window)
+    transmitter = Transmitter(timesteps, folds, markov_reset, warmup)
+"""
 
 
 def s6(ck, an):
     fm = an.fa("TradingEnvXY._make_transmitter")
-    mk = [d for d in fm.rd.defs if d.var == "markov_reset" and d.kind == "assign"]
-    c = fm.sym.cmp(mk[0].value, mk[0].node) if mk else None
-    ck.check(c is not None and c[0] == "rel" and c[1] == "==" and c[4] in (Poly.atom("window") - Poly.const(1), Poly.const(1) - Poly.atom("window")), "CMP", "S6.markov-iff-window-1", fm.f.short, fm.f.loc, "markov reset iff window == 1",
-             f"markov_reset = {cmp_key(c) if c else '?'}", construct="markov_reset = window == 1")
-    wu = [d for d in fm.rd.defs if d.var == "warmup" and d.kind == "assign"]
-    k = fm.sym.canon(wu[0].value, wu[0].node) if wu else "?"
-    want = fm.sym.canon(ast.parse("None if window == 1 else timedelta(days=3 + window * 2)", mode="eval").body, wu[0].node) if wu else "?"
-    ck.check(k == want, "LIN", "S6.warmup-covers-window", fm.f.short, fm.f.loc, "warm-up horizon = 3 + 2 x window days (None under markov reset)", f"warmup = {k}", construct="warmup = None if markov_reset else timedelta(days=3 + window * 2)")
-    tr = [c for c in walk_function(fm.f.node) if isinstance(c, ast.Call) and fm.sym.canon(c.func) == "Transmitter"]
-    ok = len(tr) == 1 and [ast.unparse(a) for a in tr[0].args][1:] == ["folds", "markov_reset", "warmup"]
-    ck.check(ok, "ARGFLOW", "S6.transmitter-config", fm.f.short, fm.f.loc, "Transmitter(timesteps, folds, markov_reset, warmup)", f"Transmitter({ast.unparse(tr[0])[:80] if tr else ''})", construct="Transmitter(timesteps, folds, markov_reset, warmup)")
-    fi = an.fa("TradingEnvXY.__init__")
-    sup = [c for c in fi.calls_named("__init__") if ast.unparse(c.func).startswith("super()")]
-    if len(sup) != 1:
-        ck.fail("ARGFLOW", "S6.env-config", fi.f.short, fi.f.loc, "TradingEnvXY does not call super().__init__ once", construct="super().__init__(...)")
-        return
-    kw = {k.arg: ast.unparse(k.value) for k in sup[0].keywords}
-    want = {"action_space": "BoxPortfolio(Y.columns, max_short, max_long, margin=margin)", "broker_fees": "BrokerFees(markup, rate.name, fee, fixed)", "initial_cash": "cash", "latency": "latency", "steps_delay": "steps_delay",
-            "episode_length": "episode_length", "sampling_span": "sampling_span", "reward": "reward"}
-    for k, w in want.items():
-        ck.check(kw.get(k) == w, "ARGFLOW", f"S6.env-config-{k}", fi.f.short, fi.loc(sup[0]), f"{k} = {w}", f"{k} = {kw.get(k)}; expected {w}", construct=f"{k}={kw.get(k)}")
-    cols = [s for s in all_stmts(fi) if isinstance(s, ast.Assign) and ast.unparse(s.targets[0]) == "Y.columns"]
-    ck.check(len(cols) == 1 and ast.unparse(cols[0].value) == "[Asset(col) for col in Y.columns]", "ARGFLOW", "S6.one-asset-per-column", fi.f.short, fi.f.loc, "each price column becomes an Asset contract",
-             "price columns are not mapped one-to-one to Asset contracts", construct="Y.columns = [Asset(col) for col in Y.columns]")
-    rn = [s for s in all_stmts(fi) if isinstance(s, ast.Assign) and ast.unparse(s.targets[0]) == "rate.name"]
-    ck.check(len(rn) == 1 and ast.unparse(rn[0].value) == "Rate(rate.name)", "ARGFLOW", "S6.rate-contract", fi.f.short, fi.f.loc, "the rate series is keyed by a Rate contract (the one the fee schedule reads)", "rate.name is not Rate(rate.name)",
-             construct="rate.name = Rate(rate.name)")
-    rr = [s for s in all_stmts(fi) if isinstance(s, ast.Assign) and ast.unparse(s.targets[0]) == "rate" and "loc" in ast.unparse(s.value)]
-    ck.check(any(ast.unparse(s.value) == "rate.squeeze().loc[start:end]" for s in rr), "ARGFLOW", "S6.rate-range", fi.f.short, fi.f.loc, "the given rate is used on [start, end]", "the rate is not restricted as rate.squeeze().loc[start:end]",
-             construct="rate = rate.squeeze().loc[start:end]")
-    yy = [s for s in all_stmts(fi) if isinstance(s, ast.Assign) and ast.unparse(s.targets[0]) == "Y" and "loc[start:end]" in ast.unparse(s.value)]
-    ck.check(any(ast.unparse(s.value) == "pd.DataFrame(Y).loc[start:end]" for s in yy), "ARGFLOW", "S6.price-range", fi.f.short, fi.f.loc, "prices are the given prices on [start, end]", "Y is not restricted as pd.DataFrame(Y).loc[start:end]",
-             construct="Y = pd.DataFrame(Y).loc[start:end]")
+    ref = reference(fm, REF_MAKE_TRANSMITTER.format(sig=ast.unparse(fm.f.node.args)))
+
+    def ctor(fa):
+        cs = [c for c in walk_function(fa.f.node) if isinstance(c, ast.Call) and fa.sym.canon(c.func) == "Transmitter"]
+        return fa.sym.canon(cs[0], fa.node_of(cs[0]).id) if len(cs) == 1 else None
+    got, want = ctor(fm), ctor(ref)
+    ck.check(got is not None and got == want, "LIN", "S6.transmitter-config", fm.f.short, fm.f.loc,
+             "Transmitter(the computed timesteps, folds, markov reset iff window == 1, warm-up horizon = 3 + 2 x window days or None under markov reset)",
+             f"the transmitter is built as {str(got)[:300]}; specified {str(want)[:300]}", construct="Transmitter(timesteps, folds, markov_reset, warmup)", witness=[f"got       {got}", f"specified {want}"])
